@@ -18,7 +18,7 @@ Proof.
   destruct (digits_of_word w) as [ds|]; [|reflexivity]. rewrite pad_two_zeros. reflexivity.
 Qed.
 (* the token: any word except the bare markers ㅎ / ㅇ (which padding would turn into ㅎ+0 / ㅇ+0) *)
-Theorem padded_word_same_token c rest m stk : ((c =? HIEUH) || (c =? IEUNG) = true -> rest <> []) ->
+Theorem padded_word_same_token (c:N) rest m stk : (N.eqb c HIEUH || N.eqb c IEUNG = true -> rest <> []) ->
   parse_token ((c :: rest) ++ [G; G], m) stk = parse_token (c :: rest, m) stk.
 Proof.
   intros NB. unfold parse_token. cbn [app]. destruct (c =? HIEUH) eqn:H1; [|destruct (c =? IEUNG) eqn:H2].
@@ -29,7 +29,7 @@ Proof.
   - change (c :: rest ++ [G; G]) with ((c :: rest) ++ [G; G]). rewrite parse_number_two_zeros. reflexivity.
 Qed.
 (* ... hence the whole text: padding one word anywhere leaves the parser's result - trees or rejection - unchanged (spans as given) *)
-Theorem padded_word_same_trees c rest m : ((c =? HIEUH) || (c =? IEUNG) = true -> rest <> []) ->
+Theorem padded_word_same_trees (c:N) rest m : (N.eqb c HIEUH || N.eqb c IEUNG = true -> rest <> []) ->
   forall ts1 ts2 stk, parse_tokens (ts1 ++ ((c :: rest) ++ [G; G], m) :: ts2) stk = parse_tokens (ts1 ++ (c :: rest, m) :: ts2) stk.
 Proof.
   intros NB. induction ts1 as [|t ts1 IH]; intros ts2 stk.
